@@ -18,14 +18,26 @@ def main():
         from .setup import setup
         sys.exit(setup())
     seed = int(os.environ.get("VERIF_SEED", "0"))
-    mod = importlib.import_module(f"harness.props.{ns.prop.lower()}")
+    pid = ns.prop.upper()
     try:
+        mod = importlib.import_module(f"harness.props.{ns.prop.lower()}")
         rc = core.run_check(mod.PROP, ns.tier, seed, ns.replay)
     except Exception:
+        # The harness itself could not run against this tree (the package does not import, a class
+        # of the harness's user hierarchy is rejected, a stream crashes on a changed interface …):
+        # the tie between model and code is broken, so the property is no longer shown to hold.
+        import json
         import traceback
-        traceback.print_exc()
-        print(f"check {ns.prop}: harness error (exit 2, not a verdict)")
-        sys.exit(2)
+        tb = traceback.format_exc()
+        sys.stderr.write(tb)
+        os.makedirs(os.path.join(core.VERIF, "replays"), exist_ok=True)
+        rp = os.path.join("replays", f"{pid}-{seed}-harness.json")
+        with open(os.path.join(core.VERIF, rp), "w") as f:
+            json.dump({"property": pid, "kind": "correspondence_broken",
+                       "what": "the harness could not be run against this tree",
+                       "traceback": tb.strip().split("\n")[-12:], "seed": seed}, f, indent=1)
+        print(f"VIOLATION property={pid} replay={rp} no-failing-input-found")
+        sys.exit(1)
     sys.exit(rc)
 
 
